@@ -1130,10 +1130,10 @@ func c08ExtensionWindow(r *run.Run) {
 	if !r.Quick() {
 		window = 40
 	}
-	c08ExtensionWindowPart(r, "C08.extension-window", window, 4)
+	c08ExtensionWindowPart(r, "C08.extension-window", window, 3, 4)
 }
 
-func c08ExtensionWindowPart(r *run.Run, name string, window, maxFixed int) {
+func c08ExtensionWindowPart(r *run.Run, name string, window, minFixed, maxFixed int) {
 	sub := func(n int) gtab.Subtable { // single substitution 1.2 with n adjacent glyphs: 16 + 2n bytes
 		cov := coverage.Table{}
 		subst := make([]glyph.ID, n)
@@ -1188,7 +1188,7 @@ func c08ExtensionWindowPart(r *run.Run, name string, window, maxFixed int) {
 	}
 	var points []point
 	const lo, hi = 2, 9900
-	for nf := 3; nf <= maxFixed; nf++ {
+	for nf := minFixed; nf <= maxFixed; nf++ {
 		for marks := 0; marks < 1<<(nf+1); marks++ {
 			for nsub := 1; nsub <= 2; nsub++ {
 				var find func(a, b, fa, fb int)
@@ -1210,7 +1210,7 @@ func c08ExtensionWindowPart(r *run.Run, name string, window, maxFixed int) {
 		}
 	}
 	r.Explore(explore.Config{Name: name, Deadline: r.PartDeadline(0.4)},
-		fmt.Sprintf("lookup lists of single-substitution lookups [n entries; 3..%d lookups of 20, 21, ... KiB; 25 KiB] x all assignments of mark filtering sets to the lookups but the last x 1 or 2 subtables per lookup: the entry count n of the first (smallest) lookup in every step of a window of +-%d around each of the %d points (found by bisection over n = %d..%d) at which the encoder moves one more lookup behind extension records or starts to refuse: the list comes back intact or the encoder refuses loudly", maxFixed, window, len(points), lo, hi),
+		fmt.Sprintf("lookup lists of single-substitution lookups [n entries; %d..%d lookups of 20, 21, ... KiB; 25 KiB] x all assignments of mark filtering sets to the lookups but the last x 1 or 2 subtables per lookup: the entry count n of the first (smallest) lookup in every step of a window of +-%d around each of the %d points (found by bisection over n = %d..%d) at which the encoder moves one more lookup behind extension records or starts to refuse: the list comes back intact or the encoder refuses loudly", minFixed, maxFixed, window, len(points), lo, hi),
 		func(c *explore.Ctx) {
 			pt := points[c.Choose(len(points), "configuration and transition point")]
 			n := pt.n - window + c.Choose(2*window+1, "entries relative to the transition point")
